@@ -1328,7 +1328,12 @@ class SK(object):
             self.bind(n.target, self.arith(self.AUG[type(n.op)], cur, v, n), env)
         elif isinstance(n, ast.For):
             src = self.iterate(self.ev(n.iter, env), n.iter)
-            for item in (src if isinstance(src, GenObj) else list(src)):
+            k_it = 0
+            # (an iterator is consumed lazily: it may be endless - itertools.count() - and left with break / return)
+            for item in (src if isinstance(src, GenObj) or hasattr(src, '__next__') else list(src)):
+                k_it += 1
+                if k_it > self.MAXITER and hasattr(src, '__next__'):
+                    raise Violation('SK1', 'loop over an iterator does not terminate within %d iterations' % self.MAXITER, n)
                 self.bind(n.target, item, env)
                 try:
                     self.block(n.body, env)
